@@ -85,7 +85,7 @@ theorem lookupManipulator_no_panic (name optName pos s : String) :
     · simp only [Bool.false_eq_true, ↓reduceIte]
       cases sig.params with
       | nil => simp
-      | cons d rest => cases rest <;> simp
+      | cons d rest => cases rest <;> simp <;> (cases sig.variadic <;> simp)
     · simp
 
 theorem styleEffect_no_panic (o : Options) (args : List String) (s : String) : styleEffect o args ≠ .panic s := by
